@@ -260,6 +260,11 @@ theorem slice_no_longer_than_source (xs : List Val) (a b : Option Int) :
   · intro ha hb; subst ha; subst hb
     rw [h2]; simp [sliceBound]
 
+/-- **`xs[::-1]` is `xs` reversed** (the one slice form with a step the grammar spells: `[::k]`, here `k = -1`) -/
+theorem slice_with_step_minus_one_reverses (xs : List Val) :
+    ∃ idx, sliceIndices xs.length none none (some (-1)) = .ok idx ∧ pick xs idx = xs.reverse :=
+  slice_reverse xs
+
 /-- **reading `c[a:b]` from a list object** returns a NEW list object holding exactly that segment, and leaves every object
     that existed before as it was (`HeapExt`): the slice is a copy of the spine, never a view -/
 theorem slice_read_returns_new_segment (s : BState) (a : Nat) (xs : List Val) (lo hi : Option Int)
